@@ -76,6 +76,10 @@ CLAIMED["C18"] = dict(engine="E2", technique="AST-level bounded symbolic interpr
     text="Euclidean-ring laws of BinaryPolynomial (division with remainder, gcd, lcm, ring laws) and field laws of GF(2^m) (commutativity, identity, inverses, powers, Frobenius, distributivity, associativity, order of the primitive element, trace, conjugates, minimal polynomials) for all operands inside the degree / field-size bounds recorded in the evidence file.",
     note="Bounds are dictated by solver capacity on multiplier-equivalence formulas (see evidence 'bounds'); beyond them the property is not claimed. The interpreter is validated on every run against the repository's own test literals and seeded random inputs; in-memory AST mutants must be flagged.",
     ref="DESIGN.md §4 C18, §2.2")
+CLAIMED["C20"] = dict(engine="E1", technique="the real component is executed several times inside one solver context on shared symbolic members (stacked batch, each member alone, swapped order, repeated call, 1-D / (1,2,n) / two-blocks-per-row layouts); z3 decides whether any output coordinate can differ",
+    text="For every component of the stated catalogue and ALL values of two symbolic members at once: batch result equals the stack of single results, independent of position and of the other member, repeated calls agree, the input tensor is unchanged, and every alternative layout either agrees with per-block evaluation or is rejected with an exception.",
+    note="Batches of two members; Berlekamp-Massey with a fixed second member; constraints compare per leading index only; PAPR / per-antenna constraints and iterative soft decoders are not in this catalogue (stated). Known finding: ReedMullerDecoder drops all but the first block of nested / multi-block inputs.",
+    ref="DESIGN.md §4 C20")
 NOT_YET = {}
 
 PENDING_REASON = "check not built yet in this round (planned: see DESIGN.md §8); not claimed until its check exists"
